@@ -36,8 +36,8 @@ CLAIMED["C07"] = ("ovf-codec", "exploration",
   "Trusted: panic hook + catch_unwind as crash detector (aborts would kill the check: reported as exit 2), reference sealing.", "DESIGN.md 5/C07")
 
 CLAIMED["C10"] = ("ovf-codec", "exploration",
-  "model-based property testing under a controlled clock: reference-built handshakes with one generated field each vs the acceptance model; replay histories vs a set model; barrier-released concurrent copies; one real-time expiry probe (thorough)",
-  "Reference-built 2022 requests/responses/datagrams and VMess auth-ids/responses with generated timestamps (both sides of the 30 s / 120 s boundaries, extremes), type bytes, request-salt echoes, response bytes and keys are presented to the real decoders under a pinned clock; the accept/reject decision must equal the model in the property statement. Histories of repeated presentations at moving clock offsets are compared with a 'set of accepted salts' model; K concurrently presented copies must yield exactly one acceptance; the thorough tier replays a request 31 s of real time after acceptance. Exploration.",
+  "model-based property testing under a controlled clock: reference-built handshakes with one generated field each vs the acceptance model; replay histories vs a set model; barrier-released concurrent copies; real-time expiry probes; generated replay histories across the TCP and QUIC listeners of the running server (raw reference peers, per-request scripted targets)",
+  "Reference-built 2022 requests/responses/datagrams and VMess auth-ids/responses with generated timestamps (both sides of the 30 s / 120 s boundaries, extremes), type bytes, request-salt echoes, response bytes and keys are presented to the real decoders under a pinned clock; the accept/reject decision must equal the model in the property statement. Histories of repeated presentations at moving clock offsets are compared with a 'set of accepted salts' model; K concurrently presented copies must yield exactly one acceptance; real-time replays 0.15 s and 1.2 s after acceptance (5 s and 31 s more in the thorough tier). System half (real server binary, hooks off): cross-listener-replay - a 2022 entry in mode tcp_and_quic is started and a generated history presents up to three reference-built valid requests, each possibly several times, on either listener (raw TCP connection / raw QUIC stream); each request names its own scripted target, which must be dialled for the first presentation and never again. Exploration.",
   "Trusted: clock hook (pins aead_2022::now / vmess::now per thread), reference encoder. The machine's scheduler decides which interleavings the concurrent sub-check sees.", "DESIGN.md 5/C10")
 
 CLAIMED["C12"] = ("ovf-codec", "exploration",
@@ -135,7 +135,7 @@ def main():
         "engines": [
             {"name": "ovf-codec", "path": "/verif/harness", "serves_properties": ["C02","C03","C04","C05","C06","C07","C09","C10","C11","C12","C13","C14"],
              "kind_free_text": "in-process property-based testing (proptest) of the real Encoder/Decoder objects, framed adapters, handshake code and packet filter against an independent reference implementation and explicit models"},
-            {"name": "ovf-system", "path": "/verif/harness", "serves_properties": ["C01","C02","C08","C09","C11","C12","C15","C16"],
+            {"name": "ovf-system", "path": "/verif/harness", "serves_properties": ["C01","C02","C06","C08","C09","C10","C11","C12","C15","C16"],
              "kind_free_text": "generated scenarios against the real client/server binaries over loopback with scripted applications, targets, reference peers and injected faults"},
             {"name": "ovf-fuzz", "path": "/verif/fuzz", "serves_properties": sorted(FUZZ.keys()),
              "kind_free_text": "cargo-fuzz / libFuzzer targets (nightly, AddressSanitizer, debug assertions): fz_sub decodes the fuzzer's bytes into a case of one in-process sub-check through that sub-check's own proptest strategy and runs its oracle; fz_raw feeds raw bytes to every network-facing decoder; campaigns run in the thorough tier, corpora under /verif/corpus are replayed in every run"},
